@@ -162,7 +162,7 @@ def main():
         tr = lr.split()
         sc = tc.index("=>")
         sr = tr.index("=>")
-        if ptr32 and tc[0] == "fi" and tr[0] == "fi" and tc[1:3] == tr[1:3] and tc[3] != tr[3]:
+        if ptr32 and tc[0] in ("fi", "zi") and tr[0] == tc[0] and tc[1:3] == tr[1:3] and tc[3] != tr[3]:
             # integer operand type is usize / isize: its width (token 3) follows the pointer width by design, so the two
             # lines cannot be compared; the 32-bit line is judged ABSOLUTELY by the exact oracles of C04 / C03 instead
             # (the driver logs the generated 64-bit operand; the library received its low 32 bits)
@@ -180,7 +180,7 @@ def main():
             st.evaluations += 1
             st.checks += len(tc) - sc - 1
             st.layouts.add(tc[1])
-            st.ops["fi"] = st.ops.get("fi", 0) + 1
+            st.ops[tc[0]] = st.ops.get(tc[0], 0) + 1
             continue
         if tc[:sc] != tr[:sr]:
             errors += 1
@@ -252,7 +252,8 @@ def main():
                 st.samples.append("checked: %s || release: %s" % (lc.strip()[:200], " ".join(tr[sr:])[:160]))
     if ptr32:
         # the interpreter must have finished cleanly: a Miri abort (UB report, unsupported operation) is not a verdict
-        if truncated:
+        if truncated or errors:
+            # (also after a misalignment: nobody reads the interpreter's pipe any more, a plain wait() would block for ever)
             # cargo -> cargo-miri -> miri: the whole process group has to go, or the interpreter keeps running orphaned
             import signal
             try:
@@ -260,7 +261,7 @@ def main():
             except OSError:
                 pass
         rc = pc.wait()
-        if rc != 0 and not truncated:
+        if rc != 0 and not truncated and not errors:
             errors += 1
             errf.seek(0)
             sys.stderr.write("32-bit interpreter run exited %s: %s\n" % (rc, errf.read()[-1500:]))
